@@ -30,12 +30,13 @@ Definition known {A} (variants : list (string * A)) (names : list (string * stri
 Lemma tables_closed :
   known cipher_variants ConfigTables.cipher_names_all = true /\ known protocol_variants Tables.protocol_names = true
   /\ known mode_variants Tables.mode_names = true
-  /\ ConfigTables.cipher_names_all = Tables.cipher_names ++ [(ConfigTables.cipher_default_variant, ConfigTables.cipher_default_variant)]
+  /\ ConfigTables.cipher_names_all = Tables.cipher_names
+  /\ ConfigTables.cipher_not_deserializable = [ConfigTables.cipher_default_variant]
   /\ Tables.cipher_unknown_is_nameable = false.
 Proof. vm_compute. repeat split. Qed.
 
-(* the serde names are exactly the documented names, plus the spelling of the default variant *)
-Lemma cipher_names_are_documented : map fst ConfigTables.cipher_names_all = readme_cipher_names ++ ["Unknown"].
+(* the serde names are exactly the documented names (the #[default] variant is #[serde(skip_deserializing)]) *)
+Lemma cipher_names_are_documented : map fst ConfigTables.cipher_names_all = readme_cipher_names.
 Proof. reflexivity. Qed.
 Lemma protocol_names_are_documented : map fst Tables.protocol_names = readme_protocol_names.
 Proof. reflexivity. Qed.
@@ -110,23 +111,20 @@ Proof. intros s. cbn. tauto. Qed.
 
 (* ------------------------------------------------------------------------------------------ *)
 (* unknown_names_rejected: for ALL strings *)
-Lemma unknown_cipher_rejected : forall s, ~ In s readme_cipher_names -> s <> "Unknown" -> parse_cipher s = None.
-Proof.
-  intros s Hs Hu. apply parse_with_not_in. rewrite cipher_names_are_documented. intros Hin.
-  apply in_app_or in Hin. destruct Hin as [Hin|[<-|[]]]; [exact (Hs Hin)|exact (Hu eq_refl)].
-Qed.
+Lemma unknown_cipher_rejected : forall s, ~ In s readme_cipher_names -> parse_cipher s = None.
+Proof. intros s Hs. apply parse_with_not_in. rewrite cipher_names_are_documented. exact Hs. Qed.
 Lemma unknown_protocol_rejected : forall s, ~ In s readme_protocol_names -> parse_protocol s = None.
 Proof. intros s Hs. apply parse_with_not_in. rewrite protocol_names_are_documented. exact Hs. Qed.
 Lemma unknown_mode_rejected : forall s, ~ In s readme_mode_names -> parse_mode s = None.
 Proof. intros s Hs. apply parse_with_not_in. rewrite mode_names_are_documented. exact Hs. Qed.
 (* a whole object with one undocumented name is a serde error, whatever the other fields are *)
 Lemma object_with_unknown_name_rejected : forall c p m,
-  (exists s, c = Some s /\ ~ In s readme_cipher_names /\ s <> "Unknown") \/ ~ In p readme_protocol_names
+  (exists s, c = Some s /\ ~ In s readme_cipher_names) \/ ~ In p readme_protocol_names
   \/ (exists s, m = Some s /\ ~ In s readme_mode_names) ->
   parse_server_config c p m = None.
 Proof.
-  intros c p m [[s [-> [H1 H2]]]|[H|[s [-> H]]]]; unfold parse_server_config.
-  - cbn [field_cipher]. rewrite (unknown_cipher_rejected s H1 H2). reflexivity.
+  intros c p m [[s [-> H1]]|[H|[s [-> H]]]]; unfold parse_server_config.
+  - cbn [field_cipher]. rewrite (unknown_cipher_rejected s H1). reflexivity.
   - rewrite (unknown_protocol_rejected p H). destruct (field_cipher c); reflexivity.
   - cbn [field_mode]. rewrite (unknown_mode_rejected s H). destruct (field_cipher c); [destruct (parse_protocol p)|]; reflexivity.
 Qed.
@@ -140,66 +138,130 @@ Proof.
   intros s Hs. pose proof (proj1 (forallb_forall _ _) H s Hs) as H1. cbv beta in H1.
   destruct (parse_cipher s) as [c|]; [|discriminate H1]. split; [|discriminate]. intros [= ->]. discriminate H1.
 Qed.
-(* the only string that yields the kind `Unknown` is the spelling of the variant itself *)
-Lemma unknown_kind_only_by_its_own_name : forall s, parse_cipher s = Some CUnknown -> s = "Unknown".
+(* NO string yields the kind `Unknown` *)
+Lemma no_name_is_unknown : forall s, parse_cipher s <> Some CUnknown.
 Proof.
-  intros s H. destruct (string_dec s "Unknown") as [E|N]; [exact E|exfalso].
-  destruct (in_dec string_dec s readme_cipher_names) as [I|NI].
+  intros s H. destruct (in_dec string_dec s readme_cipher_names) as [I|NI].
   - exact (proj1 (documented_name_never_unknown s I) H).
-  - rewrite (unknown_cipher_rejected s NI N) in H. discriminate.
+  - rewrite (unknown_cipher_rejected s NI) in H. discriminate.
 Qed.
+(* `Unknown` is what an ABSENT cipher field becomes ... *)
 Lemma absent_cipher_is_unknown : field_cipher None = Some CUnknown.
 Proof. reflexivity. Qed.
 (* ... and what the code does with that kind: the shadowsocks server stops with an error before any listener,
-   the shadowsocks client logs the error and serves nothing, VMess / Trojan servers never look at it *)
+   the shadowsocks client logs the error and serves nothing, the VMess client refuses it (below), VMess / Trojan
+   servers and the Trojan client never look at it *)
 Lemma unknown_kind_shadowsocks_server : forall m ssl ws quic,
-  startup_server PShadowsocks CUnknown m ssl ws quic = StartupError "unknown cipher kind".
-Proof. reflexivity. Qed.
-Lemma unknown_kind_shadowsocks_client : forall m, startup_client PShadowsocks CUnknown m = StartupError "unknown cipher kind".
-Proof. reflexivity. Qed.
-Lemma cipher_ignored_by_other_servers : forall p c m ssl ws quic, p <> PShadowsocks ->
-  startup_server p c m ssl ws quic = Started (listeners_server p m ssl ws quic).
-Proof. intros [] c m ssl ws quic H; [congruence| |]; unfold startup_server; destruct (server_n c); reflexivity. Qed.
-(* a documented cipher never hits the error arm *)
-Lemma documented_cipher_starts : forall d c, In d readme_ciphers -> parse_cipher (dc_name d) = Some c ->
-  forall p m ssl ws quic, startup_server p c m ssl ws quic = Started (listeners_server p m ssl ws quic)
-                          /\ exists l, startup_client p c m = Started l.
-Proof.
-  intros d c Hd Hc. destruct (names_complete_and_exact_cipher d Hd) as [c' [pr S]].
-  rewrite (sel_parse _ _ _ S) in Hc. injection Hc as <-.
-  pose proof (sel_n_server _ _ _ S) as Hs. pose proof (sel_n_udp _ _ _ S) as Hu.
-  assert (Ht : client_tcp_n c' = Some (kp_n pr)).
-  { pose proof (sel_params _ _ _ S) as Hp. unfold kind_params, kind_n in Hp.
-    destruct (client_tcp_n c'); [|discriminate]. destruct (tag_size c'); try discriminate. destruct (cipher_method c'); try discriminate.
-    injection Hp as <-. reflexivity. }
-  intros p m ssl ws quic. split.
-  - unfold startup_server. rewrite Hs. destruct p; reflexivity.
-  - unfold startup_client. rewrite Ht, Hu. destruct (listeners_client m) as [t u]. destruct p; eexists; reflexivity.
-Qed.
-
-(* VMess: the two documented ciphers select exactly their security *)
-Lemma vmess_cipher_exact : forall d c, In d readme_ciphers -> dc_vmess d = true -> parse_cipher (dc_name d) = Some c ->
-  vmess_client_security "tcp" c = Some (readme_vmess_security d) /\ vmess_client_security "udp" c = Some (readme_vmess_security d).
-Proof.
-  assert (H : forallb (fun d => negb (dc_vmess d) || match parse_cipher (dc_name d) with
-     | Some c => match vmess_client_security "tcp" c, vmess_client_security "udp" c with
-                 | Some a, Some b => String.eqb a (readme_vmess_security d) && String.eqb b (readme_vmess_security d)
-                 | _, _ => false end
-     | None => false end) readme_ciphers = true) by (vm_compute; reflexivity).
-  intros d c Hd Hv Hc. pose proof (proj1 (forallb_forall _ _) H d Hd) as H1. cbv beta in H1. rewrite Hv, Hc in H1. cbn [negb orb] in H1.
-  destruct (vmess_client_security "tcp" c), (vmess_client_security "udp" c); try discriminate.
-  apply andb_prop in H1. destruct H1 as [A B]. apply String.eqb_eq in A, B. subst. split; reflexivity.
-Qed.
+  exists msg, startup_server PShadowsocks CUnknown m ssl ws quic = StartupError msg.
+Proof. intros [] ssl ws []; eexists; reflexivity. Qed.
+Lemma unknown_kind_shadowsocks_client : forall m, exists msg, startup_client PShadowsocks CUnknown m = StartupError msg.
+Proof. intros []; eexists; reflexivity. Qed.
+Lemma cipher_ignored_by_other_servers : forall p c c' m ssl ws quic, p <> PShadowsocks ->
+  startup_server p c m ssl ws quic = startup_server p c' m ssl ws quic.
+Proof. intros [] c c' m ssl ws quic H; [congruence| |]; reflexivity. Qed.
 
 (* ------------------------------------------------------------------------------------------ *)
-(* listeners_match_readme *)
+(* startup outcome against the documented one *)
 Definition mk (x : bool * bool * bool) : listeners := let '(t, u, q) := x in {| l_tcp := t; l_udp := u; l_quic := q |}.
-Lemma listeners_match_readme_server : forall p m ssl ws quic, readme_consistent p m quic = true ->
-  listeners_server p m ssl ws quic = mk (readme_server_listeners p m quic).
-Proof. intros [] [] [] [] []; vm_compute; intros H; try reflexivity; discriminate. Qed.
-Lemma listeners_match_readme_client : forall m l, readme_client_listeners m = Some l ->
-  listeners_client m = l /\ client_keeps_running m = true.
-Proof. intros [] l; vm_compute; intros [= <-]; split; reflexivity. Qed.
+Definition meets (s : startup) (e : expected) : Prop :=
+  match e, s with
+  | ExpectSockets t u q, Started l => l = {| l_tcp := t; l_udp := u; l_quic := q |}
+  | ExpectError, StartupError _ => True
+  | _, _ => False          (* in particular: serving while an error went unreported never meets the contract *)
+  end.
+Definition meetsb (s : startup) (e : expected) : bool :=
+  match e, s with
+  | ExpectSockets t u q, Started l => Bool.eqb (l_tcp l) t && Bool.eqb (l_udp l) u && Bool.eqb (l_quic l) q
+  | ExpectError, StartupError _ => true
+  | _, _ => false
+  end.
+Lemma meetsb_meets : forall s e, meetsb s e = true -> meets s e.
+Proof.
+  intros [l|msg|l msg] [t u q|]; cbn; try discriminate; try exact (fun _ => I).
+  intros H. repeat (apply andb_prop in H; destruct H as [H ?]).
+  destruct l as [a b c]. cbn in *. repeat match goal with X : Bool.eqb _ _ = true |- _ => apply eqb_prop in X end. subst. reflexivity.
+Qed.
+
+(* is this kind usable with this protocol at all (the code's own tests) *)
+Definition kind_usable (p : protocol) (c : cipher) : bool :=
+  match p with
+  | PShadowsocks => match client_tcp_n c, client_udp_n c, server_n c with Some _, Some _, Some _ => true | _, _, _ => false end
+  | PVMess => match vmess_security c with Some _ => true | None => false end
+  | PTrojan => true
+  end.
+
+(* server: every (protocol, kind, mode, ssl?, ws?, quic?) -- an inconsistent one (a mode that asks for QUIC without the quic
+   section) is a startup error, a consistent one listens on exactly the documented sockets *)
+Lemma listeners_match_readme_server : forall p c m ssl ws quic, (p = PShadowsocks -> server_n c <> None) ->
+  meets (startup_server p c m ssl ws quic) (readme_server_startup p m quic).
+Proof.
+  intros p c m ssl ws quic Hc. apply meetsb_meets.
+  destruct p.
+  - destruct (server_n c) as [n|] eqn:E; [|exfalso; exact (Hc eq_refl eq_refl)].
+    unfold startup_server. rewrite E. destruct m, quic; reflexivity.
+  - destruct m, quic; reflexivity.
+  - destruct m, quic; reflexivity.
+Qed.
+Lemma listeners_server_is_startup : forall p c m ssl ws quic l, startup_server p c m ssl ws quic = Started l ->
+  l = listeners_server p m ssl ws quic.
+Proof.
+  intros p c m ssl ws quic l. destruct p; unfold startup_server.
+  - destruct (any_pred _ m && negb quic); [discriminate|]. destruct (server_n c); [|discriminate].
+    destruct m, quic; vm_compute; intros [= <-]; reflexivity.
+  - destruct m, quic; vm_compute; intros [= <-]; reflexivity.
+  - destruct m, quic; vm_compute; intros [= <-]; reflexivity.
+Qed.
+(* no configuration at all ends in "serving, with an unreported error" *)
+Lemma no_swallowed_startup_error : forall p c m ssl ws quic l msg, startup_server p c m ssl ws quic <> StartedDespiteError l msg.
+Proof.
+  intros p c m ssl ws quic l msg. destruct p; unfold startup_server.
+  - destruct (server_n c); destruct m, quic; vm_compute; discriminate.
+  - destruct m, quic; vm_compute; discriminate.
+  - destruct m, quic; vm_compute; discriminate.
+Qed.
+
+(* client: a documented client mode listens on exactly the documented sockets and keeps running; the two server-only
+   modes are startup errors -- for every protocol and every kind usable with it *)
+Lemma listeners_match_readme_client : forall p c m, kind_usable p c = true ->
+  meets (startup_client p c m) (readme_client_startup m)
+  /\ (forall l, readme_client_listeners m = Some l -> listeners_client m = l /\ client_keeps_running m = true).
+Proof.
+  intros p c m Hk. split.
+  - apply meetsb_meets. destruct p; cbn [kind_usable] in Hk; unfold startup_client.
+    + destruct (client_tcp_n c), (client_udp_n c); try discriminate Hk. destruct m; reflexivity.
+    + unfold vmess_client_security. destruct (vmess_security c); [|discriminate Hk]. destruct m; reflexivity.
+    + destruct m; reflexivity.
+  - destruct m; vm_compute; intros l [= <-]; split; reflexivity.
+Qed.
+Lemma server_mode_refused_by_client : forall p c m, readme_client_listeners m = None ->
+  startup_client p c m = StartupError server_mode_msg /\ client_keeps_running m = false.
+Proof. intros p c [] H; try discriminate H; split; reflexivity. Qed.
+
+(* VMess client: the two documented ciphers select exactly their security; EVERY other kind (the five the README does not
+   tick for VMess, and `Unknown` = no cipher given) is refused: on each TCP flow, on each UDP flow, and when the TCP
+   listener's context is built -- never replaced by another cipher *)
+Lemma vmess_cipher_exact : forall d c, In d readme_ciphers -> parse_cipher (dc_name d) = Some c ->
+  forall net, In net ["tcp"; "udp"; "context"] ->
+  vmess_client_security net c = if dc_vmess d then VSecurity (readme_vmess_security d) else VRefused.
+Proof.
+  intros d c Hd Hc net Hn. cbn in Hd, Hn.
+  repeat (destruct Hd as [<-|Hd]; [vm_compute in Hc; injection Hc as <-; repeat (destruct Hn as [<-|Hn]; [reflexivity|]); destruct Hn|]).
+  destruct Hd.
+Qed.
+Lemma vmess_other_kinds_refused : forall c, c <> CAes128Gcm -> c <> CChaCha20Poly1305 ->
+  vmess_client_security "tcp" c = VRefused /\ vmess_client_security "udp" c = VRefused
+  /\ forall m, fst (listeners_client m) = true -> exists msg, startup_client PVMess c m = StartupError msg.
+Proof.
+  intros c H1 H2. destruct c; try congruence; (split; [reflexivity|split; [reflexivity|]]);
+    intros [] H; try discriminate H; eexists; reflexivity.
+Qed.
+Lemma documented_cipher_starts : forall d c p, In d readme_ciphers -> parse_cipher (dc_name d) = Some c ->
+  kind_usable p c = readme_cipher_allowed p d.
+Proof.
+  intros d c p Hd Hc. cbn in Hd.
+  repeat (destruct Hd as [<-|Hd]; [vm_compute in Hc; injection Hc as <-; destruct p; reflexivity|]). destruct Hd.
+Qed.
+
 (* sections other than `quic` never change the listener set *)
 Lemma listeners_ignore_ssl_ws : forall p m ssl ws ssl' ws' quic,
   listeners_server p m ssl ws quic = listeners_server p m ssl' ws' quic.
